@@ -240,6 +240,13 @@ func receiveFromTransport(ctx context.Context, c *channel, done chan<- struct{})
 			panic(fmt.Errorf("unknown envelope type %v", reflect.ValueOf(e)))
 		}
 	}
+
+	// The state still says established, so it is the transport that went away. Nothing reads from it any
+	// more: it is released, so that an envelope which still trickles in (the in-process transport counts as
+	// connected while it holds unread ones) cannot make the channel look established again
+	if ctx.Err() == nil && c.State() == SessionStateEstablished {
+		_ = c.transport.Close()
+	}
 }
 
 func (c *channel) ID() string {
